@@ -1392,7 +1392,14 @@ fn gen_history(rng: &mut Rng, p: &GenParams) -> (Cfg, Vec<Op>) {
             let ud = next_ud;
             next_ud += 1;
             pushed_uds.push(ud);
-            ops.push(Op::Push { ring, ud, kind: Kind::Cancel { target }, flags: 0 });
+            // a cancel is an SQE like any other: rejected flags reject it (-EINVAL, target untouched), ASYNC is accepted
+            let cflags: u8 = match rng.below(10) {
+                0 => *rng.pick(&[1u8, 2, 4, 8, 32]),
+                1 => (rng.below(63) + 1) as u8,
+                2 => 16,
+                _ => 0,
+            };
+            ops.push(Op::Push { ring, ud, kind: Kind::Cancel { target }, flags: cflags });
             if rng.chance(2, 3) {
                 ops.push(Op::Submit { ring, mode: 0, want: 0 });
                 submitted_uds.append(&mut pushed_uds.clone());
@@ -1850,6 +1857,61 @@ fn big_batches(rng: &mut Rng, out: &mut Vec<Case>, n: usize) {
     }
 }
 
+/// AsyncCancel SQEs carrying each flag combination, against a target in flight / matured but unreaped / promoted /
+/// absent, alone and inside a chain of linked entries: a rejected flag makes the cancel complete with -EINVAL and leaves
+/// the target alone (it completes normally); ASYNC alone is an ordinary cancel.
+fn flagged_cancels(rng: &mut Rng, out: &mut Vec<Case>) {
+    let kinds = [
+        Kind::Read { fd: 0, off: 0, len: 4 },
+        Kind::Write { fd: 0, off: 1, data: vec![0xE1, 0xE2] },
+        Kind::Fsync { fd: 0 },
+    ];
+    for flags in 1u8..64 {
+        for stage in 0..4 {
+            let lat = if stage == 0 { 1_000_000 } else { *rng.pick(&[0u64, 1_000_000]) };
+            let cfg = Cfg { nfiles: 1, lat_min: lat, lat_max: lat, cache: false, fs_seed: rng.next() % 1000, init: vec![vec![1, 2, 3, 4, 5, 6]] };
+            let mut ops = vec![Op::NewRing(8), Op::CqNew(0)];
+            let kind = rng.pick(&kinds).clone();
+            if stage != 3 {
+                ops.push(Op::Push { ring: 0, ud: 20, kind, flags: 0 });
+            }
+            match stage {
+                0 => ops.push(Op::Submit { ring: 0, mode: 0, want: 0 }), // in flight
+                1 => {
+                    ops.push(Op::Submit { ring: 0, mode: 0, want: 0 });
+                    ops.push(Op::Advance(2_000_000)); // matured, unreaped
+                }
+                2 => {
+                    // promoted into `ready` by the drain of something else
+                    ops.push(Op::Push { ring: 0, ud: 19, kind: Kind::Fsync { fd: 0 }, flags: 0 });
+                    ops.push(Op::Submit { ring: 0, mode: 0, want: 0 });
+                    ops.push(Op::Advance(2_000_000));
+                    ops.push(Op::CqSync(0));
+                    ops.push(Op::Next(0));
+                }
+                _ => {} // no such target
+            }
+            // the flagged cancel, alone or in the middle of a chain of IO_LINK entries
+            let chain = rng.chance(1, 3);
+            if chain {
+                ops.push(Op::Push { ring: 0, ud: 30, kind: Kind::Fsync { fd: 0 }, flags: 4 });
+            }
+            ops.push(Op::Push { ring: 0, ud: 21, kind: Kind::Cancel { target: 20 }, flags });
+            if chain {
+                ops.push(Op::Push { ring: 0, ud: 31, kind: Kind::Read { fd: 0, off: 0, len: 2 }, flags: 0 });
+            }
+            ops.push(Op::Submit { ring: 0, mode: 0, want: 0 });
+            if rng.chance(1, 2) {
+                // and an unflagged one afterwards must still work
+                ops.push(Op::Push { ring: 0, ud: 22, kind: Kind::Cancel { target: 20 }, flags: 0 });
+                ops.push(Op::Submit { ring: 0, mode: 0, want: 0 });
+            }
+            closing(&mut ops, 1);
+            out.push(Case { family: "flaggedcancel", mode: "standalone", cfg, ops });
+        }
+    }
+}
+
 /// One case: all 64 combinations of the six IOSQE flag bits.
 fn flag_sweep(out: &mut Vec<Case>) {
     let cfg = Cfg { nfiles: 1, lat_min: 0, lat_max: 0, cache: false, fs_seed: 1, init: vec![vec![9, 9]] };
@@ -1960,6 +2022,7 @@ pub fn main(args: &Args, out: &mut dyn Write) {
         }
         cancel_matrix(&mut rng, &mut cases);
         flag_sweep(&mut cases);
+        flagged_cancels(&mut rng, &mut cases);
         big_batches(&mut rng, &mut cases, 12 * scale);
         exhaustive(&mut cases, if args.tier == "thorough" { 6 } else { 5 });
         crash_points(&mut rng, &mut cases, 30 * scale);
